@@ -19,6 +19,8 @@ def run(ctx):
                 "to K variable-length arrays in turn with capacity+1 / roundup8(capacity) / +1 elements -> ser and exactly-sized serbuf; "
                 "Python target: every request also under 2 alternative spellings of its primitive arrays (tuple, exact / wider / narrower / "
                 "byte-swapped / strided / read-only / unaligned / 2-d / object ndarray, bytes-likes; chosen by CRC of the request); "
+                "Python only: 5 (12) values per type with 1-3 scalar number fields outside the DSDL range incl. beyond the C storage type — "
+                "refused by the setter = n/a (counted), accepted = must serialize to the cast-adjusted bytes; "
                 "non-trivial = value text is not the empty struct; distinct by (type, op, value)")
     rng = ctx.rng
     n = 60 if ctx.quick else 120
@@ -36,6 +38,16 @@ def run(ctx):
             reqs.append(E.Req(gt, "ser", v, origin="overlong"))
             reqs.append(E.Req(gt, "serbuf", (v, mx), origin="overlong"))
     E.run_requests(ctx, sess, drv, "ser", reqs, tally)
+    # Python scalars are unbounded: number fields OUTSIDE the DSDL range, also beyond the C storage type (70000 in a uint16, 2**31
+    # in an int32, 2**64, negative in an unsigned), standard and non-standard widths, both cast modes.  The generated setter may
+    # refuse them (n/a, counted); whatever it ACCEPTS must serialize to the saturated / truncated bytes of the model.
+    py = [t for t in sess.targets if t.lang == "py"]
+    if py:
+        preqs = []
+        for gt in sess.ns.types:
+            for v in E.out_of_range_scalar_values(rng, gt, 5 if ctx.quick else 12):
+                preqs.append(E.Req(gt, "ser", v, origin="py-out-of-range-scalar"))
+        E.run_requests(ctx, sess, drv, "ser-py-out-of-range-scalars", preqs, tally, targets=py)
     E.record_spellings(ctx, sess)
     E.run_refinement_ties(ctx)
     ctx.sample({"type": reqs[-1].gt.tstr[:200], "request": reqs[-1].target_line()[:200]})
